@@ -9,7 +9,8 @@
 //!
 //! Time: update timestamps are `base + offset` where base = wall clock at the start of the run,
 //! pruning uses `remove_stale_channels_and_tracking_with_time(base + 14 days + t)`; only offsets
-//! enter the trace.
+//! enter the trace.  Permanent failures are reported at the wall clock (>= base), so a pruning
+//! call with t < -7 days finds every report of the run less than a week old.
 //!
 //! usage: gossip --out TRACE [--scripts FILE] [--random N] [--seed S] [--scripts-out FILE]
 
@@ -661,6 +662,68 @@ fn cu_msg(c: i64, d: i64, ts: i64, s: i64, chain: bool, hmax: i64, rng: &mut Std
 		"fb": rng.gen_range(0..100000), "fp": rng.gen_range(0..100000)})
 }
 
+/// Gossip that is still in flight when a permanent failure is reported: right after the report of
+/// channel `fc` / node `fnode`, optionally a pruning call whose clock keeps or drops the memory of
+/// the report (or a reload, which drops it), then messages of every class that refer to what was
+/// removed -- the announcement of the removed channel again, announcements of other channels of
+/// the removed node (known ones and ones not announced so far; the node sits in whichever slot its
+/// key sorts into), their updates, the node's announcement.
+fn late_gossip(
+	rng: &mut StdRng, pool: &[Value], pairs: &[(i64, i64)], nch: usize, fc: Option<i64>, fnode: Option<i64>,
+	clock_only: bool, ops: &mut Vec<Value>,
+) {
+	if !rng.gen_bool(0.7) {
+		return;
+	}
+	if rng.gen_bool(0.35) {
+		// clock < one week after the run's start: every report is still remembered; later: may be forgotten
+		let keep = [100 - TWO_WEEKS, -ONE_WEEK - 50];
+		let drop: &[i64] = if clock_only { &[3600 - ONE_WEEK] } else { &[3600 - ONE_WEEK, 150, ONE_WEEK + 150] };
+		let t = if rng.gen_bool(0.6) { keep[rng.gen_range(0..keep.len())] } else { drop[rng.gen_range(0..drop.len())] };
+		ops.push(json!({"op": "prune", "t": t}));
+	} else if !clock_only && rng.gen_bool(0.1) {
+		ops.push(json!({"op": "reload"}));
+	}
+	let mut scids: Vec<i64> = Vec::new();
+	let mut cand: Vec<Value> = Vec::new();
+	if let Some(c) = fc {
+		scids.push(c);
+	}
+	for m in pool.iter().filter(|m| gs(m, "k") == "ca") {
+		let hit = Some(gi(m, "c")) == fc || Some(gi(m, "n1")) == fnode || Some(gi(m, "n2")) == fnode;
+		if hit {
+			scids.push(gi(m, "c"));
+			cand.push(m.clone());
+		}
+	}
+	for c in nch as i64 + 1..=NC as i64 {
+		let (n1, n2) = pairs[c as usize - 1];
+		if Some(n1) == fnode || Some(n2) == fnode {
+			scids.push(c);
+			cand.push(json!({"k": "ca", "c": c, "n1": n1, "n2": n2, "s1": n1, "s2": n2, "bs": 1, "chain": true}));
+		}
+	}
+	for m in pool.iter() {
+		if (gs(m, "k") == "cu" && scids.contains(&gi(m, "c"))) || (gs(m, "k") == "na" && Some(gi(m, "n")) == fnode) {
+			cand.push(m.clone());
+		}
+	}
+	if cand.is_empty() {
+		return;
+	}
+	for _ in 0..rng.gen_range(1..=3) {
+		let mut m = cand[rng.gen_range(0..cand.len())].clone();
+		let mut via = if rng.gen_bool(0.5) { "p2p" } else { "direct" };
+		if gs(&m, "k") == "ca" && gi(&m, "s1") == gi(&m, "n1") && gi(&m, "s2") == gi(&m, "n2") && rng.gen_bool(0.2) {
+			// the same announcement through the entry point that requests no verification
+			m["s1"] = json!(-2);
+			m["s2"] = json!(-2);
+			via = "unsigned";
+		}
+		ops.push(json!({"op": "deliver", "via": via, "m": m}));
+	}
+}
+
 fn random_script(rng: &mut StdRng) -> Value {
 	let lookup = rng.gen_bool(0.5);
 	let caps: Vec<i64> = (0..NC).map(|_| if rng.gen_bool(0.5) { 1000 } else { 2000 }).collect();
@@ -782,14 +845,27 @@ fn random_script(rng: &mut StdRng) -> Value {
 			if rng.gen_bool(0.12) {
 				ops.push(json!({"op": "resolve", "c": rng.gen_range(1..=nch as i64), "ok": rng.gen_bool(0.85)}));
 			}
+			if !pure_run && rng.gen_bool(0.07) {
+				// a permanent failure reported while lookups may be pending
+				let fv = if rng.gen_bool(0.5) { "update" } else { "direct" };
+				if rng.gen_bool(0.4) {
+					let c = rng.gen_range(1..=nch as i64);
+					ops.push(json!({"op": "failc", "c": c, "via": fv}));
+					late_gossip(rng, &pool, &pairs, nch, Some(c), None, true, &mut ops);
+				} else {
+					let n = rng.gen_range(1..=4);
+					ops.push(json!({"op": "failn", "n": n, "via": fv}));
+					late_gossip(rng, &pool, &pairs, nch, None, Some(n), true, &mut ops);
+				}
+			}
 		}
-		for c in 1..=nch as i64 {
+		for c in 1..=NC as i64 {
 			ops.push(json!({"op": "resolve", "c": c, "ok": rng.gen_bool(0.85)}));
 		}
 		for _ in 0..pool.len() / 2 {
 			ops.push(json!({"op": "deliver", "via": via(rng), "m": pool[rng.gen_range(0..pool.len())].clone()}));
 		}
-		for c in 1..=nch as i64 {
+		for c in 1..=NC as i64 {
 			ops.push(json!({"op": "resolve", "c": c, "ok": true}));
 		}
 		return json!({"lookup": lookup, "async": true, "caps": caps, "ops": ops, "pure": pure_run});
@@ -799,10 +875,21 @@ fn random_script(rng: &mut StdRng) -> Value {
 		if !pure_run && rng.gen_bool(0.18) {
 			let fv = if rng.gen_bool(0.5) { "update" } else { "direct" };
 			match rng.gen_range(0..7) {
-				0 => ops.push(json!({"op": "failc", "c": rng.gen_range(1..=nch as i64 + 1), "via": fv})),
-				1 => ops.push(json!({"op": "failn", "n": rng.gen_range(1..=5), "via": fv})),
+				0 => {
+					let c = rng.gen_range(1..=nch as i64 + 1);
+					ops.push(json!({"op": "failc", "c": c, "via": fv}));
+					late_gossip(rng, &pool, &pairs, nch, Some(c), None, false, &mut ops);
+				},
+				1 => {
+					let n = rng.gen_range(1..=5);
+					ops.push(json!({"op": "failn", "n": n, "via": fv}));
+					late_gossip(rng, &pool, &pairs, nch, None, Some(n), false, &mut ops);
+				},
 				2 | 3 => {
-					let t = [0i64, -100, 150, 250, 350, 450][rng.gen_range(0..6)];
+					// incl. clocks within / just past the week a failure report is remembered, and one
+					// more than a week after the other pruning calls
+					let t = [0i64, -100, 150, 250, 350, 450, 100 - TWO_WEEKS, -ONE_WEEK - 50, 3600 - ONE_WEEK,
+						ONE_WEEK + 150][rng.gen_range(0..10)];
 					ops.push(json!({"op": "prune", "t": t}))
 				},
 				4 => ops.push(json!({"op": "reload"})),
